@@ -257,6 +257,16 @@ def g_words(ctx, rng, i):
         P = g.Transformation(mats["s"].astype(complex) @ mats["t"].astype(complex))
         check_image(ctx, "word", P, obj, a, "(s*t)*x", what_prefix=f"(s*t)*{name}: ")
         check_image(ctx, "word", P, obj, b, "s*(t*x)", what_prefix=f"s*(t*{name}): ")
+    # history with the documented mutator: the matrix is edited in place between two applications (stale caches must not survive)
+    te = g.Transformation(np.array(mats["t"], copy=True))
+    for name, obj in objs[:: max(1, len(objs) // 5)]:
+        te.apply(obj)
+    te[0, n - 1] = te.array[0, n - 1] + 2
+    te[n - 1, 0] = te.array[n - 1, 0] + (1 if abs(np.linalg.det(np.asarray(te.array, dtype=float))) > 0.5 else 0)
+    if abs(np.linalg.det(np.asarray(te.array, dtype=float))) > 0.5:
+        for name, obj in objs[:: max(1, len(objs) // 5)]:
+            te.apply(obj)
+            te * obj
     ident = g.identity(dim)
     for name, obj in objs[:: max(1, len(objs) // 6)]:
         check_image(ctx, "word", ident, obj, ident * obj, "identity", what_prefix=f"identity*{name}: ")
